@@ -3,6 +3,7 @@ import Nsl.Model.WasmEval
 import Nsl.Model.VM
 import Nsl.Proofs.WasmEval
 import Nsl.Proofs.WasmInt
+import Nsl.Proofs.WasmUInt
 import Nsl.Props.C07
 
 /-!
@@ -36,6 +37,23 @@ theorem C06_ok_supported (P : List Func) (m : WModule) (h : genWasm P = .ok m) :
     obtain ⟨e, he⟩ := C06_refuses P f hf ⟨i, hi, hs⟩
     rw [he] at h; cases h
 #print axioms C06_ok_supported
+
+/-- The generator also refuses a function whose returns do not match its signature (a value of another type, a missing
+value, a value in a `void` function) or that has a result but no `return` at all: whatever it emits passed `retOK`. -/
+theorem C06_returns_checked (P : List Func) (m : WModule) (h : genWasm P = .ok m) (idx : Nat) (f : Func)
+    (hf : P[idx]? = some f) :
+    ∃ ft ents, m.types[idx]? = some ft ∧ collectEntries f.params f.code [] = .ok ents ∧
+      retOK ft.results ents f.code = true := by
+  obtain ⟨fcs, hg, rfl⟩ := genWasmWith_ok h
+  obtain ⟨fc, hfc, hgf⟩ := genFuncs_getElem P fcs hg idx f hf
+  obtain ⟨ft, c⟩ := fc
+  obtain ⟨ents, he, hr⟩ := genFunc_retOK hgf
+  exact ⟨ft, ents, by simp [hfc], he, hr⟩
+#print axioms C06_returns_checked
+
+example : (match genWasm [⟨"h", [("a", .sc .float)], .sc .int,
+    [.load 1 (.sc .float) .arg (.index 0), .ret (some (.ref 1))]⟩] with | .ok _ => false | .error _ => true) = true := by
+  decide +kernel
 
 /-- No instruction is dropped silently: the only IR items that translate to no WebAssembly
 instruction are the basic-block label markers (which are not instructions in the Python IR). -/
@@ -102,6 +120,19 @@ theorem C06_agree_int {F : Type} (O : F32Ops F) (P : List Func) (m : WModule) (i
     evalFunc O m idx (args.map fun a => WVal.i32 (wrap a)) = some [WVal.i32 (wrap v)] :=
   ⟨runR_run fuel hvm, agree_int_with O hgen hf hint args hlen hargs Pg fuel g g' v as hvm⟩
 #print axioms C06_agree_int
+
+/-- The unsigned counterpart (`uint` parameters and result, `uintFunc`; `runRU` = `VM.run` plus the check that every
+value stays in `[0, 2^32)`): whenever the VM run stays inside the unsigned 32-bit domain and returns `v`, the generated
+function returns `v` — with `i32.div_u`, `i32.lt_u`, `i32.gt_u` selected, which matters for values ≥ 2^31. -/
+theorem C06_agree_uint {F : Type} (O : F32Ops F) (P : List Func) (m : WModule) (idx : Nat)
+    (f : Func) (hgen : genWasm P = .ok m) (hf : P[idx]? = some f) (hint : uintFunc f = true)
+    (args : List Int) (hlen : args.length = f.params.length) (hargs : ∀ a ∈ args, inU32 a)
+    (Pg : Program) (fuel : Nat) (g g' : VM.Globals) (v : Int) (as : List Val)
+    (hvm : runRU Pg fuel f 0 { args := args.map Val.int } g = .done (.int v) g' as) :
+    VM.run Pg fuel f 0 { args := args.map Val.int } g = .done (.int v) g' as ∧
+    evalFunc O m idx (args.map fun a => WVal.i32 (wrap a)) = some [WVal.i32 (wrap v)] :=
+  ⟨runRU_run fuel hvm, agree_uint_with O hgen hf hint args hlen hargs Pg fuel g g' v as hvm⟩
+#print axioms C06_agree_uint
 
 /-! ## 3. Partial: single operations including division and comparisons -/
 
@@ -251,6 +282,44 @@ example : evalFunc O0 exSIntModule 0 ([-15, 2].map fun a => WVal.i32 (wrap a)) =
 /-- Outside the domain the hypothesis fails, as it must: `-2^31 / -1`. -/
 example : runR ⟨[exSInt], []⟩ 20 exSInt 0 { args := [-2147483648, -1].map Val.int } [] =
     .fail (.unsupported "outside-i32") := by rfl
+
+/-- `uint u(uint a, uint b) { return (a / b) + (a > b); }` after lowering. -/
+def exUInt : Func := ⟨"u", [("a", .sc .uint), ("b", .sc .uint)], .sc .uint,
+  [.label 0,
+   .load 1 (.sc .uint) .arg (.index 0), .load 2 (.sc .uint) .arg (.index 1),
+   .bin 3 (.s .div) (.sc .uint) (.ref 1) (.ref 2),
+   .load 4 (.sc .uint) .arg (.index 0), .load 5 (.sc .uint) .arg (.index 1),
+   .bin 6 (.s .gt) (.sc .uint) (.ref 4) (.ref 5),
+   .bin 7 (.s .add) (.sc .uint) (.ref 3) (.ref 6),
+   .ret (some (.ref 7))]⟩
+
+example : uintFunc exUInt = true := by decide +kernel
+
+/-- On `(3000000000, 7)` — the first argument is ≥ 2^31, so signed instructions would be wrong. -/
+theorem exUInt_vm : runRU ⟨[exUInt], []⟩ 20 exUInt 0 { args := [3000000000, 7].map Val.int } [] =
+    .done (.int 428571429) [] [.int 3000000000, .int 7] := by rfl
+
+def exUIntModule : WModule where
+  types := [⟨[.i32, .i32], [.i32]⟩]
+  funcs := [0]
+  tables := [0]
+  exports := [⟨"u", 0⟩]
+  codes :=
+    [⟨[(7, .i32)],
+      [.localGet 0, .localSet 2, .localGet 1, .localSet 3,
+       .localGet 2, .localGet 3, .num .i32DivU, .localSet 4,
+       .localGet 0, .localSet 5, .localGet 1, .localSet 6,
+       .localGet 5, .localGet 6, .num .i32GtU, .localSet 7,
+       .localGet 4, .localGet 7, .num .i32Add, .localSet 8,
+       .localGet 8, .ret]⟩]
+
+theorem exUInt_gen : genWasm [exUInt] = .ok exUIntModule := by decide +kernel
+
+example : evalFunc O0 exUIntModule 0 ([3000000000, 7].map fun a => WVal.i32 (wrap a)) =
+    some [WVal.i32 (wrap 428571429)] :=
+  (C06_agree_uint O0 [exUInt] exUIntModule 0 exUInt exUInt_gen rfl (by decide +kernel) [3000000000, 7] rfl
+    (by intro a ha; simp at ha; rcases ha with rfl | rfl <;> (unfold inU32; omega))
+    ⟨[exUInt], []⟩ 20 [] [] 428571429 _ exUInt_vm).2
 
 /-- Refusal on a concrete program: a branch, a cast, a vector operation, a `mod`. -/
 example : (match genWasm [⟨"h", [("a", .sc .int)], .sc .int,
